@@ -17,6 +17,7 @@ EXPLANATION = ("CRC-gate typestate decided from MIR: (R1) every Reader::cut_chec
                "reference; (R4) every Serializer::new passes Crc32 and the checksum is written after the data. Semantic validation "
                "behind a valid CRC (forged files) is outside the property and not decided."
                " (R6) = C04-R2/R3 under this property; (R7) errors reach the caller (= C06-R7, Result-as-iterator adapters included).")
+EXPLANATION += ' Batch 11: (R3) every Ok(()) of assert_slice_crc lies behind the digest and its comparison with the stored CRC (no sentinel value, no shortcut).'
 ASSUMPTIONS = ["CRC-32C detects the alterations of the quantifier (storage damage, not adversarial re-checksumming)", "64-bit target (move_to_memory is the constant true)",
                "rustc MIR construction and trait resolution"]
 
@@ -361,6 +362,12 @@ def r3_the_check(cx):
             ok = differ_arm is not None and bool(corrupted) and all(c in b.reachable(differ_arm) for c in corrupted) and not any(o in b.reachable(differ_arm) for o in okret) \
                 and any(o in b.reachable(equal_arm) for o in okret) and not any(c in b.reachable(equal_arm) for c in corrupted)
     cx.ob("R3", "R3/mismatch-is-an-error", ok, f, "digest != stored CRC returns Err(CorruptedFile); only the equal arm returns Ok(())")
+    if cmpb is not None:
+        # no way to Ok(()) around the comparison: a stored value that "means unchecked" (zero, all ones), a size below which
+        # the block is trusted, a flag -- whatever the shortcut, the block was not verified
+        okret = [x for x in range(b.n) for st in b.stmts(x) if st["k"] == "assign" and st["lhs"]["l"] == 0 and st["rv"]["k"] == "agg" and st["rv"].get("variant") == "Ok"]
+        early = [b.ln(o) for o in okret if not (b.dominates(cmpb[0], o) and b.dominates(fin[0][0], o))]
+        cx.ob("R3", "R3/ok-only-after-the-comparison", bool(okret) and not early, f, "every Ok(()) of assert_slice_crc lies behind the digest and its comparison with the stored CRC (Ok returned without them at lines %s)" % (early or "none"))
     # digest over buf[..len-4], stored crc read from buf[len-4..]
     sub4 = False
     for blk in b.blocks:
